@@ -28,6 +28,7 @@ impl<const LIMBS: usize> Int<LIMBS> {
     // TODO(tarcieri): replace with `const impl From<i64>` when stable
     #[cfg(target_pointer_width = "32")]
     pub const fn from_i64(n: i64) -> Self {
+        assert!(LIMBS >= 2, "number of limbs must be two or greater");
         Uint::<{ I64::LIMBS }>::from_u64(n as u64).as_int().resize()
     }
 
@@ -42,6 +43,10 @@ impl<const LIMBS: usize> Int<LIMBS> {
     /// Create a [`Int`] from an `i128` (const-friendly)
     // TODO(tarcieri): replace with `const impl From<i128>` when stable
     pub const fn from_i128(n: i128) -> Self {
+        assert!(
+            LIMBS >= 16 / Limb::BYTES,
+            "number of limbs must be enough to hold 128 bits"
+        );
         Uint::<{ I128::LIMBS }>::from_u128(n as u128)
             .as_int()
             .resize()
